@@ -28,7 +28,8 @@ library given as (kind, implementation) blocks; answer as for `xform`.
 repair of D30 squeezed out — the theorems hold there too, the flag only counts such cases), followed by the hypotheses of
 `C10.substitute_sem_general`: `<host wfNoTrail> <implGenOKB> <noSelfIgnB> <hasIgnoredB> <designated cell exists>`.
 `resolveok` (arguments as `resolve`) — those of `C10.resolve_sem`: `<host wf> <resolveOKB> <result wf> <first failing condition or ok>`,
-followed by those of `C10.resolve_sem_general`: `<host wfNoTrail> <resolveGenOKB> <result wfNoTrail> <first failing condition or ok>`. -/
+followed by those of `C10.resolve_sem_general`: `<host wfNoTrail> <resolveGenOKB> <result wfNoTrail> <first failing condition or ok>`,
+those of `C10.resolve_run_isSome` (fields 8-14) and the static hypothesis `resolveStaticB` of `C10.resolve_isSome_static` (field 15). -/
 namespace KV.Drv.Transform
 open KV KV.Transform
 
